@@ -500,6 +500,34 @@ def collect (esc : Bytes → Bytes) (sc : Scenario) : List Emitted :=
   let resKV := if sc.resConst then getAttrs esc sc.cfg.legacy sc.res else []
   target ++ collectScopes esc sc resKV [] sc.scopes
 
+/-! ### several exporters, several scrapes
+
+The only state a collector keeps between scrapes that influences what it sends is its family cache
+(`collector.metricFamilies`); target info / scope info / resource labels are cached functions of constant inputs. The
+ResourceMetrics buffer comes from a package-level pool, but it is (must be) private to one Collect call: the model has no
+shared buffer. -/
+
+/-- one scrape of an exporter whose cache is `fams`: what is sent, and the cache afterwards -/
+def collectFrom (esc : Bytes → Bytes) (sc : Scenario) (fams : List Fam) : List Emitted × List Fam :=
+  let tlabels := getAttrs esc sc.cfg.legacy sc.res
+  let target : List Emitted :=
+    if !sc.noTarget && descOK sc.cfg.legacy (b "target_info") tlabels then [targetInfoMetric esc sc] else []
+  let resKV := if sc.resConst then getAttrs esc sc.cfg.legacy sc.res else []
+  (target ++ collectScopes esc sc resKV fams sc.scopes, scopesFams esc sc resKV fams sc.scopes)
+
+/-- the process: exporter id ↦ family cache of its collector -/
+abbrev World := Nat → List Fam
+
+/-- a scrape of exporter `id`, whose SDK currently holds the data `sc` -/
+abbrev ScrapeOp := Nat × Scenario
+
+/-- scrapes executed one after the other in any interleaving order; result: (exporter id, what that scrape sent) -/
+def runScrapes (esc : Bytes → Bytes) : World → List ScrapeOp → List (Nat × List Emitted)
+  | _, [] => []
+  | w, (id, sc) :: rest =>
+    let r := collectFrom esc sc (w id)
+    (id, r.1) :: runScrapes esc (fun j => if j == id then r.2 else w j) rest
+
 structure Series where
   labels : List KV
   payload : OutPayload
